@@ -259,6 +259,9 @@ def gen_sa(tier, seed):
     yield {'zone': 52, 'north': 9.95e6, 'easts': es, 'mode': 'csv'}
     yield {'zone': 30, 'north': 6.2e6, 'easts': [7.4e5, 7.8e5, 8.2e5, 8.305e5], 'mode': 'csv'}
     yield {'zone': 30, 'north': 9.99e6, 'easts': [7.4e5, 8.0e5, 8.33e5], 'mode': 'csv'}
+    yield {'zone': 55, 'north': 6251064.8483, 'easts': [3e5, 444444.4444, 612345.6789], 'mode': 'csv', 'noeol': True, 'eol': 'lf'}
+    yield {'zone': 51, 'north': 7000000.001, 'easts': [3e5, 444444.4444, 612345.6789], 'mode': 'csv', 'noeol': True, 'eol': 'crlf'}
+    yield {'zone': 56, 'north': 6000001.0, 'easts': [5e5], 'mode': 'csv', 'noeol': True, 'eol': 'lf'}
     yield {'zone': 55, 'north': 6.2e6, 'easts': es, 'mode': 'csv', 'spell': 1}
     yield {'zone': 50, 'north': 5813614.161, 'easts': [321405.559, 444444.4444, 5e5, 612345.678, 7e5, 100000.5, 2e5, 3e5], 'mode': 'csv', 'spell': 1}
 
@@ -278,13 +281,18 @@ def ev_sa(case, rec):
         d = os.path.join(SCRATCH, 'c02_sa_%d' % os.getpid())
         os.makedirs(d, exist_ok=True)
         fn_in = os.path.join(d, 'pts.csv')
+        eol = {'lf': '\n', 'crlf': '\r\n'}[case.get('eol', 'crlf' if case.get('spell') else 'lf')]
         with open(fn_in, 'w', newline='') as f:
-            w = csv.writer(f)
+            w = csv.writer(f, lineterminator=eol)
             for i, e in enumerate(case['easts']):
                 # the same numbers in every spelling float() reads: plain, exponent, explicit sign, blanks around
                 sp = case.get('spell', 0) and (i % 4)
                 fmt = [repr, lambda v: '%.17e' % v, lambda v: '+' + repr(v), lambda v: ' %r ' % v][sp]
                 w.writerow(['P%d' % i, z if sp != 1 else '%.1e' % z if z % 10 == 0 else '%.2E' % z, fmt(e), fmt(north)])
+        if case.get('noeol'):
+            # the last line of the file without a line terminator (as most editors and many exporters leave it)
+            raw = open(fn_in, 'rb').read()
+            open(fn_in, 'wb').write(raw[:-len(eol)])
         st, msg = rec.call(m.grid2geoio, fn_in)
         if st != 'ok':
             rec.fail('batch converter raised on a well-formed csv', site='Standalone:grid2geoio', observed=msg)
